@@ -47,6 +47,10 @@ CONSTANTS M,               \* number of value logs (MaxIOConcurrency)
           MaxExports,      \* number of ExportTx calls
           NE,              \* exporter processes
           MaxAborts, MaxRestarts,
+          MaxInFlight,     \* 0 = no limit; else at most that many committers between "values appended" and "id assigned"
+                           \*     (MaxConcurrency: every committer holds a tx of the store's pool over that window)
+          WalkWindow,      \* 0 (code): the forward walk goes up to the walk bound; W > 0 = the seeded variant that stops
+                           \*     W transactions past the cut ("placement cannot be further out of order than ...")
           SeeInFlight, BoundPre, FrontLt, UnlockOnPartial,
           HoldLogs,        \* TRUE (code): every value log TruncateUptoTx touched stays locked until the call returns
           SplitCommit,     \* TRUE: pre-commit (id assigned) and commit are separate steps (external commit allowance)
@@ -97,7 +101,7 @@ Quiet        == Atomic => (~TruncRunning /\ ~ExpRunning)       \* guard of every
 
 \* what every history entry carries: the abstract state after the step
 Obs == [ctd |-> committed', pre |-> Len(txlog'), del |-> [k \in Logs |-> delBelow'[k]], sz |-> [k \in Logs |-> Size(k)']]
-E0 == [op |-> "", w |-> 0, k |-> 0, lens |-> <<>>, offs |-> <<>>, id |-> 0, t |-> 0, n |-> 0, e |-> 0, res |-> ""]
+E0 == [op |-> "", w |-> 0, k |-> 0, lens |-> <<>>, offs |-> <<>>, id |-> 0, t |-> 0, n |-> 0, e |-> 0, res |-> "", dist |-> 0]
 Log(r) == hist' = Append(hist, [r EXCEPT !.op = r.op] @@ Obs)
 
 -----------------------------------------------------------------------------
@@ -118,6 +122,7 @@ Init ==
 \* precommit's goroutine: all values of the tx, contiguously, into log k; vOff of an empty value is 0
 AppendValues(w, k, ls) ==
   /\ Quiet /\ wr[w].pc = "idle" /\ (IF w = 1 THEN TRUE ELSE wr[w - 1].pc # "idle")          \* committers are interchangeable: start in order
+  /\ (MaxInFlight = 0 \/ Cardinality({v \in Writers : wr[v].pc = "appended"}) < MaxInFlight)
   /\ LET base == Size(k)
          offs == [e \in 1..Len(ls) |-> IF ls[e] = 0 THEN 0 ELSE base + SumTo(ls, e - 1)]
          all  == [e \in 1..Len(ls) |-> [owner |-> w, off |-> offs[e], len |-> ls[e]]]
@@ -179,10 +184,17 @@ LowerToInFlight(tomb) ==
                   ELSE LET bs == {wr[w].base : w \in InFlightIn(k)} \cup {tomb[k]}
                        IN CHOOSE b \in bs : \A c \in bs : b <= c]
 WalkBound == IF BoundPre THEN Len(txlog) ELSE committed
+WalkEnd(n) == IF WalkWindow = 0 \/ n + WalkWindow > WalkBound THEN WalkBound ELSE n + WalkWindow
+\* the distance dimension: committed transactions after the cut tx n with a value in a chunk file of the same
+\* value log BELOW the file of n's first value (written early, id assigned late); Dist(n) = how far the farthest one is
+EarlyAfter(n) == {id \in (n + 1)..committed :
+                    /\ HasFirst(n) /\ txlog[n].lens[1] > 0 /\ txlog[id].k = FirstLog(n)
+                    /\ \E e \in 1..Len(txlog[id].lens) : txlog[id].lens[e] > 0 /\ txlog[id].offs[e] \div F < FirstOff(n) \div F}
+Dist(n) == IF EarlyAfter(n) = {} THEN 0 ELSE (CHOOSE id \in EarlyAfter(n) : \A o \in EarlyAfter(n) : o <= id) - n
 \* DiscardUpto(off): chunk files with index < off \div F are removed
 DelAfter(del, tomb) == [k \in Logs |-> IF tomb[k] >= 0 THEN Max(del[k], tomb[k] \div F) ELSE del[k]]
 \* the whole call on a quiescent store
-TombstonesFor(n) == FrontRec(n, WalkBound, IF SeeInFlight THEN LowerToInFlight(BackRec(n, NoTomb)) ELSE BackRec(n, NoTomb))
+TombstonesFor(n) == FrontRec(n, WalkEnd(n), IF SeeInFlight THEN LowerToInFlight(BackRec(n, NoTomb)) ELSE BackRec(n, NoTomb))
 AtomicDel(n, del) == DelAfter(del, TombstonesFor(n))
 
 (* TruncateUptoTx: the steps *)
@@ -195,7 +207,7 @@ TBegin(t, n) ==
   /\ tr' = [tr EXCEPT ![t] = [IdleT EXCEPT !.ph = "back", !.n = n, !.i = n]]
   /\ ntrunc' = ntrunc + 1 /\ cut' = Max(cut, n)
   /\ UNCHANGED delBelow /\ TUnch
-  /\ Log([E0 EXCEPT !.op = "tbegin", !.t = t, !.n = n])
+  /\ Log([E0 EXCEPT !.op = "tbegin", !.t = t, !.n = n, !.dist = Dist(n)])
 
 TBack(t) ==
   /\ tr[t].ph = "back"
@@ -214,9 +226,9 @@ TSnap(t) ==
 \* maxTxID := s.LastCommittedTxID()   (design: LastPrecommittedTxID)
 TReadMax(t) ==
   /\ tr[t].ph = "readmax"
-  /\ tr' = [tr EXCEPT ![t].max = WalkBound, ![t].j = tr[t].n, ![t].ph = "front"]
+  /\ tr' = [tr EXCEPT ![t].max = WalkEnd(tr[t].n), ![t].j = tr[t].n, ![t].ph = "front"]
   /\ UNCHANGED <<delBelow, cut, ntrunc>> /\ TUnch
-  /\ Log([E0 EXCEPT !.op = "treadmax", !.t = t, !.id = WalkBound])
+  /\ Log([E0 EXCEPT !.op = "treadmax", !.t = t, !.id = WalkEnd(tr[t].n)])
 
 TFront(t) ==
   /\ tr[t].ph = "front"
@@ -341,7 +353,7 @@ Terminal ==
   /\ committed = Len(txlog) /\ \A w \in Writers : wr[w].pc \in {"committed", "aborted"}
 \* behaviours for the replay on the real store; cuts[n] = chunks removed by a further TruncateUptoTx(n)
 Emit == (EmitTerminal /\ Terminal) =>
-          PrintT(<<"JSON:", ToJson([ops |-> hist, m |-> M, f |-> F, cut |-> cut, split |-> SplitCommit, primed |-> Primed,
+          PrintT(<<"JSON:", ToJson([ops |-> hist, m |-> M, f |-> F, cut |-> cut, split |-> SplitCommit, primed |-> Primed, mc |-> MaxInFlight,
                                     cuts |-> [n \in 1..committed |-> [k \in Logs |-> AtomicDel(n, delBelow)[k]]]])>>)
 View == <<vlog, wr, txlog, committed, delBelow, cut, tr, ntrunc, ex, exportLock, nexp, xbad, naborts, nrestarts>>
 =============================================================================
